@@ -192,6 +192,36 @@ def option_forwarding(prog, chk):
     chk.floor("C16o", n, 4)
 
 
+def compare_uses_argument(prog, chk):
+    """C16c - a comparison method compares with its argument.  In the `isSame*` methods of Rotation and Grid every `==` / `!=` test
+    that involves a member or a getter of `this` has the parameter on its other side: `_angles[i] != getAngle(i)` compares the object
+    with itself and declares any two rotations identical."""
+    n = 0
+    for f in sorted(prog.funcs, key=lambda x: (x.file, x.line)):
+        if f.body is None or f.cls not in ("Rotation", "Grid") or not f.short.startswith("isSame") or not f.params:
+            continue
+        pd = {p_["d"] for p_ in f.params if f.cls in p_["t"]}
+        if not pd:
+            continue
+        for x in f.walk():
+            if x["k"] != "BinOp" or x.get("op") not in ("==", "!="):
+                continue
+            def side(e):
+                this_ = any((y["k"] == "MemberExpr" and y.get("mk") == "field" and (not y.get("c") or y["c"][0] is None or y["c"][0]["k"] == "This")) or
+                            (y["k"] == "MCall" and (call_obj(y) is None or call_obj(y)["k"] == "This")) for y in walk(e))
+                arg_ = any(y["k"] == "DeclRefExpr" and y.get("d") in pd for y in walk(e))
+                return this_, arg_
+            l, r = side(x["c"][0]), side(x["c"][1])
+            if not (l[0] or r[0]):
+                continue
+            n += 1
+            ok = l[1] or r[1]
+            chk.analysed(f)
+            chk.ob("C16c", "%s: `%s` compares with the argument" % (f.sig(), show(x)[:50]), f.loc(x), ok,
+                   detail=None if ok else "both sides are taken from `this`: the test can never tell two different objects apart", key="C16c|%s|%s" % (f.name, show(x)[:40]))
+    chk.floor("C16c", n, 4)
+
+
 def main(tier):
     chk = Check("C16", tier,
                 "Static dependence shape of the sibling grid conversion routines (flow-sensitive reaching dependences over the CFG): "
@@ -463,4 +493,5 @@ def main(tier):
     external_siblings(prog, chk)
     stale_outputs(prog, chk)
     option_forwarding(prog, chk)
+    compare_uses_argument(prog, chk)
     return chk.finish()
